@@ -19,6 +19,7 @@ EXTENDS Integers, Sequences, FiniteSets, TLC
 CONSTANT Which
 IC == INSTANCE IntCodecs
 CD == INSTANCE Codes
+CK == INSTANCE ChunkDecode
 SU == INSTANCE Succinct
 RP == INSTANCE RePairSpec
 
@@ -76,6 +77,18 @@ CDInv == LET s == y \o <<0>> IN
            /\ CD!Decode(x, CD!Concat(x, s), <<>>) = s
            /\ Len(CD!Pack(CD!Concat(x, s))) = (Len(CD!Concat(x, s)) + 7) \div 8
 
+\* ---------------------------------------------------------------- chunk (table decoding, ChunkDecode.tla)
+\* codes over 4 symbols (0 = terminator) with codewords of up to 4 bits; chunk widths 2 and 3; padding of the
+\* last byte with zeros or with ones (whatever follows the terminator must not matter)
+BitStr4 == UNION {[1..k -> {0, 1}] : k \in 1..4}
+Tables4 == {T \in [1..4 -> BitStr4] : CD!PrefixFree(T) /\ CD!Complete(T)}
+Strs4 == UNION {[1..k -> {1, 2, 3}] : k \in 0..3}
+CKInit == x \in Tables4 /\ y \in Strs4
+PadTo8(b, v) == b \o [i \in 1..((8 - (Len(b) % 8)) % 8) |-> v]
+CKInv == LET s == y \o <<0>>
+             b == CD!Concat(x, s)
+         IN  \A K \in {2, 3} : \A v \in {0, 1} : CK!TableDecode(x, K, PadTo8(b, v)) = s
+
 \* ---------------------------------------------------------------- succinct
 FastPos(B, v) == SelectSeq([i \in 1..Len(B) |-> i], LAMBDA i : B[i] = v)          \* 1-based positions of v
 FastRanks(B, v) == [i \in 1..Len(B) |-> Cardinality({k \in 1..i : B[k] = v})]      \* rank at position i-1
@@ -102,10 +115,10 @@ RPInv == /\ RP!ExpandSeq(x[3], 3, x[2]) = x[1]
          /\ RP!NoTerminatorInRules(x[3]) /\ RP!WellFounded(x[3], 3)
          /\ RP!Compact(x[2]) = x[2]
 
-Init == CASE Which = "vbyte" -> VBInit [] Which = "logseq" -> LSInit [] Which = "codes" -> CDInit
+Init == CASE Which = "vbyte" -> VBInit [] Which = "logseq" -> LSInit [] Which = "codes" -> CDInit [] Which = "chunk" -> CKInit
           [] Which = "succinct" -> SUInit [] Which = "repair" -> RPInit
 Next == CASE Which = "logseq" -> LSNext [] Which = "repair" -> RPNext [] OTHER -> UNCHANGED vars
-Inv == CASE Which = "vbyte" -> VBInv [] Which = "logseq" -> LSInv [] Which = "codes" -> CDInv
+Inv == CASE Which = "vbyte" -> VBInv [] Which = "logseq" -> LSInv [] Which = "codes" -> CDInv [] Which = "chunk" -> CKInv
          [] Which = "succinct" -> SUInv [] Which = "repair" -> RPInv
 Spec == Init /\ [][Next]_vars
 =============================================================================
